@@ -537,7 +537,7 @@ func init() {
 		Level: "exploration",
 		Rule: "each case = one random well-formed sample sheet (legacy ngsfilter text or CSV with @param lines; 1-3 markers; tag forms f:r, t, f:-, -:r; tag length 1-10; spacers 0-3 global / per direction / per primer; matching strict, hamming, indel; primer mismatch budget 0-3 from the sheet or from -e) loaded by the real obiformats.ReadNGSFilter, and 100-160 reads assembled from it (flank + tag + spacer + forward primer + barcode + rc(reverse primer) + spacer + rc(tag) + flank, either orientation; primer mismatches within and one over the budget, at the ends of the primer; tag substitutions and indels; undeclared tag combinations; chimeras of two amplicons; truncated priming sites; reads without site; flanks up to 12 kb) run through the real ExtractMultiBarcodeSliceWorker and through the obimultiplex command. " +
 			"construct/e2e: only reads for which an independent brute-force matcher finds exactly the constructed priming sites are judged; expected sample = unique nearest declared tag under the declared mode computed by the harness. strand: read vs reverse complement. safety: hostile reads (near-tie tags, random tags, foreign tags, delimiter/rescue extraction, truncations); the verdict is recomputed from the annotations of each output record alone. " +
-			"Added later: concurrent sub-check (one demultiplexing worker shared by 2-16 goroutines, approximate tag matching preferred). " +
+			"Added later: concurrent sub-check (one demultiplexing worker shared by 2-16 goroutines, approximate tag matching preferred). legacy sheets with one sample line beyond 64 KiB. " +
 			"distinct_nontrivial = distinct (sheet shape: format, markers, matching, tag form, tag lengths, spacers, budgets, -e) x (read class, per amplicon: form, direction, tag lengths, spacers, primer mismatches, assigned or flagged) classes of reads that contain at least one complete amplicon (construct, strand, e2e) + distinct (format, matching, form, exact/nearest, tag lengths, delimiter, direction, tag distances) classes of records that carry a sample (safety)",
 		Assume: []string{
 			"a sheet is well-formed when all tags of one primer have the same length, tag pairs are unique per marker and primers are distinct",
